@@ -18,6 +18,7 @@ package id
 
 import (
 	"context"
+	"sync"
 
 	json "github.com/bytedance/sonic"
 	"github.com/muyo/sno"
@@ -35,6 +36,9 @@ func GetSno() *Sno {
 type SnoGenerator struct {
 	*sno.Generator
 	tracer tracing.ITracer
+	// newLock serialises New: sno.Generator.New can hand out the same id twice
+	// when several goroutines draw from one generator across a time tick.
+	newLock sync.Mutex
 }
 
 func (g *Sno) NewIdGenerator(ctx context.Context, tracer tracing.ITracer) (result IGenerator, err error) {
@@ -81,6 +85,8 @@ type SnoId struct {
 }
 
 func (g *SnoGenerator) New() Id {
+	g.newLock.Lock()
+	defer g.newLock.Unlock()
 	return &SnoId{ID: g.Generator.New(0)}
 }
 
